@@ -108,7 +108,7 @@ fn expected(
 /// bounded: a decision table of concrete (cell shape, priority order, associativity pair, earlier-reduction length) cases,
 /// one or two cases per harness (more exhausts memory: four cases peaked at 20 GB), chosen to cover every branch of the documented rule and the interplay between
 /// the shift/reduce and the reduce/reduce stage.  Per case only the attributes the rule says can matter there are
-/// symbolic (last argument): M0 none (empty = false, LR, all flags off), MF the four flags prefer_shifts,
+/// symbolic (last argument): M0 none (empty = false, LR, all flags off), ME / MG empty / non-empty (LR / GLR), MF the four flags prefer_shifts,
 /// prefer_shifts_over_empty, nops, nopse and empty / non-empty, ML LR / GLR and empty / non-empty, MA all of them.
 /// Why not more: one fully symbolic case costs CBMC about a minute and 2-5 GB (150 000 symex steps through Vec::clone /
 /// partition / retain / map / collect / all); a version with every scalar symbolic over its whole type exhausted 30 GB;
@@ -120,6 +120,8 @@ const M0: u8 = 0;
 const MF: u8 = 1;
 const ML: u8 = 2;
 const MA: u8 = 3;
+const ME: u8 = 4; // empty / non-empty symbolic, LR
+const MG: u8 = 5; // empty / non-empty symbolic, GLR
 
 #[kani::proof]
 #[kani::unwind(5)]
@@ -154,17 +156,30 @@ fn c5_flags() {
 }
 #[kani::proof]
 #[kani::unwind(5)]
-fn c5_rr_prio() {
-    // reduce/reduce: strictly lower than all is dropped, strictly higher than all replaces them
+fn c5_rr_lower() {
+    // reduce/reduce: strictly lower than all is dropped
     conflict_case(false, false, 1, 9, 10, [10, 10], 0, 0, 1, 0, M0);
+    kani::cover!(true, "all cases executed");
+}
+#[kani::proof]
+#[kani::unwind(5)]
+fn c5_rr_higher() {
+    // reduce/reduce: strictly higher than all replaces them
     conflict_case(false, false, 2, 11, 10, [9, 10], 0, 0, 0, 1, M0);
     kani::cover!(true, "all cases executed");
 }
 #[kani::proof]
 #[kani::unwind(5)]
-fn c5_rr_mixed() {
-    // reduce/reduce, neither: LR drops empty reductions, GLR keeps everything
-    conflict_case(false, false, 2, 10, 10, [9, 11], 0, 0, 0, 1, ML);
+fn c5_rr_mixed_lr() {
+    // reduce/reduce, neither, LR: empty reductions are dropped in favour of non-empty ones
+    conflict_case(false, false, 2, 10, 10, [9, 11], 0, 0, 0, 1, ME);
+    kani::cover!(true, "all cases executed");
+}
+#[kani::proof]
+#[kani::unwind(5)]
+fn c5_rr_mixed_glr() {
+    // reduce/reduce, neither, GLR: everything is kept
+    conflict_case(false, false, 2, 10, 10, [9, 11], 0, 0, 0, 1, MG);
     kani::cover!(true, "all cases executed");
 }
 #[kani::proof]
@@ -172,15 +187,27 @@ fn c5_rr_mixed() {
 fn c5_f3() {
     // the shape of defect F3: a reduce that beats the shift meets a cell that already holds [Shift, Reduce]
     conflict_case(true, false, 1, 11, 10, [10, 10], 0, 0, 1, 0, M0);
-    conflict_case(true, false, 1, 10, 10, [10, 10], 1, 0, 1, 0, ML);
+    kani::cover!(true, "all cases executed");
+}
+#[kani::proof]
+#[kani::unwind(5)]
+fn c5_f3_assoc() {
+    // same shape, the reduce wins by left associativity, then meets an equal-priority reduction
+    conflict_case(true, false, 1, 10, 10, [10, 10], 1, 0, 1, 0, ME);
     kani::cover!(true, "all cases executed");
 }
 #[kani::proof]
 #[kani::unwind(5)]
 fn c5_sr_kept() {
-    // [Shift, Reduce]: the shift wins and the cell stays; nothing decides and both stay, then reduce/reduce
+    // [Shift, Reduce]: the shift wins and the cell stays as it is
     conflict_case(true, false, 1, 9, 10, [10, 10], 0, 0, 1, 0, M0);
-    conflict_case(true, false, 1, 10, 10, [10, 10], 0, 0, 1, 0, MA);
+    kani::cover!(true, "all cases executed");
+}
+#[kani::proof]
+#[kani::unwind(5)]
+fn c5_sr_both() {
+    // [Shift, Reduce]: nothing decides (unless the flags prefer the shift): both stay, then reduce/reduce
+    conflict_case(true, false, 1, 10, 10, [10, 10], 0, 0, 1, 0, MF);
     kani::cover!(true, "all cases executed");
 }
 #[kani::proof]
@@ -203,16 +230,14 @@ fn c5_accept() {
 #[kani::unwind(5)]
 fn c5_rr_equal() {
     // reduce/reduce with equal priorities
-    conflict_case(false, false, 1, 10, 10, [10, 10], 0, 0, 0, 0, ML);
-    conflict_case(false, false, 2, 10, 10, [10, 10], 0, 0, 0, 0, ML);
+    conflict_case(false, false, 1, 10, 10, [10, 10], 0, 0, 0, 0, ME);
     kani::cover!(true, "all cases executed");
 }
 #[kani::proof]
 #[kani::unwind(5)]
 fn c5_sr_lower() {
-    // the reduce beats the shift but loses to the earlier reduction; terminal right keeps the shift
+    // the reduce beats the shift but loses to the earlier reduction
     conflict_case(true, false, 1, 11, 10, [12, 10], 0, 0, 1, 0, M0);
-    conflict_case(true, false, 1, 10, 10, [10, 10], 0, 2, 1, 0, M0);
     kani::cover!(true, "all cases executed");
 }
 #[kani::proof]
@@ -220,15 +245,13 @@ fn c5_sr_lower() {
 fn c5_accept_red() {
     // [Accept, Reduce]
     conflict_case(true, true, 1, 11, 10, [10, 10], 0, 0, 1, 0, M0);
-    conflict_case(true, true, 1, 10, 10, [10, 10], 0, 0, 0, 0, MA);
     kani::cover!(true, "all cases executed");
 }
 #[kani::proof]
 #[kani::unwind(5)]
 fn c5_srr() {
     // [Shift, Reduce, Reduce]
-    conflict_case(true, false, 2, 11, 10, [10, 12], 0, 0, 0, 1, ML);
-    conflict_case(true, false, 2, 9, 10, [10, 10], 0, 0, 1, 1, M0);
+    conflict_case(true, false, 2, 11, 10, [10, 12], 0, 0, 0, 1, ME);
     kani::cover!(true, "all cases executed");
 }
 
@@ -242,7 +265,7 @@ fn conflict_case(has_shift: bool, accept: bool, nred: usize, prio: u32, shift_pr
                  red_prio: [u32; 2], pa: u8, ta: u8, l1: usize, l2: usize, mode: u8) {
     let flags = mode == MF || mode == MA;
     let empty: bool = if mode != M0 { kani::any() } else { false };
-    let lr: bool = if mode == ML || mode == MA { kani::any() } else { true };
+    let lr: bool = if mode == ML || mode == MA { kani::any() } else { mode != MG };
     let nops: bool = if flags { kani::any() } else { false };
     let nopse: bool = if flags { kani::any() } else { false };
     let settings = RecSettings {
@@ -315,7 +338,7 @@ fn conflict_case_real(has_shift: bool, accept: bool, nred: usize, prio: u32, shi
                       red_prio: [u32; 2], pa: u8, ta: u8, l1: usize, l2: usize, mode: u8) {
     let flags = mode == MF || mode == MA;
     let empty: bool = if mode != M0 { kani::any() } else { false };
-    let lr: bool = if mode == ML || mode == MA { kani::any() } else { true };
+    let lr: bool = if mode == ML || mode == MA { kani::any() } else { mode != MG };
     let nops: bool = if flags { kani::any() } else { false };
     let nopse: bool = if flags { kani::any() } else { false };
     let mut settings_owned = base_settings(None, None);
